@@ -85,3 +85,56 @@ Record idealised_build (a : Q) (female hap_ref : bool) (build : option parb) (t 
   idb_y : female = false -> forall b, In b t -> chr_y_filter t build b = true -> b_log2 b == a;
   idb_w : forall b w, In b t -> b_weight b = Some w -> 0 <= w
 }.
+
+(* ---- bounded noise: the deterministic reading of "bins sit at the levels expected ... with bin noise" ------------- *)
+(* v is within eps of the level c *)
+Definition near (eps c v : Q) : Prop := Qabs.Qabs (v - c) <= eps.
+Definition near_b (eps c v : Q) : bool := qle_b (qsub c eps) v && qle_b v (qadd c eps).
+
+(* chrY: a male sample's bins sit at the autosomal level; a female sample's are "deep negative (below -3)" in the
+   words of compare_sex_chromosomes: at or below a - 3, up to eps *)
+Definition y_near (eps a : Q) (female : bool) (v : Q) : Prop :=
+  if female then v <= a - 3 + eps else near eps a v.
+Definition y_near_b (eps a : Q) (female : bool) (v : Q) : bool :=
+  if female then qle_b v (qadd (qsub a 3) eps) else near_b eps a v.
+
+(* every bin within eps of its level: the autosomal ones (what the code's filters select: numerically named, PAR-X
+   with a build) of a, chrX (outside PAR-X) of a + x_offset, chrY (outside PAR-Y) as above; weights non-negative *)
+Record bounded_noise (eps a : Q) (female hap_ref : bool) (build : option parb) (t : list bin) : Prop := {
+  bn_auto_exists : exists b, In b t /\ is_auto_name (b_chrom b) = true;
+  bn_x_exists : exists b, In b t /\ chr_x_filter t build b = true;
+  bn_auto : forall b, In b t -> auto_sel t build b = true -> near eps a (b_log2 b);
+  bn_x : forall b, In b t -> chr_x_filter t build b = true -> near eps (a + x_offset female hap_ref) (b_log2 b);
+  bn_y : forall b, In b t -> chr_y_filter t build b = true -> y_near eps a female (b_log2 b);
+  bn_w : forall b w, In b t -> b_weight b = Some w -> 0 <= w
+}.
+Definition weight_ok_b (b : bin) : bool := match b_weight b with Some w => qle_b 0 w | None => true end.
+Definition bounded_noise_b (eps a : Q) (female hap_ref : bool) (build : option parb) (t : list bin) : bool :=
+  existsb (fun b => is_auto_name (b_chrom b)) t && existsb (chr_x_filter t build) t &&
+  forallb (fun b =>
+             (negb (auto_sel t build b) || near_b eps a (b_log2 b)) &&
+             (negb (chr_x_filter t build b) || near_b eps (qadd a (x_offset female hap_ref)) (b_log2 b)) &&
+             (negb (chr_y_filter t build b) || y_near_b eps a female (b_log2 b)) &&
+             weight_ok_b b) t.
+
+(* the weaker hypothesis the decision really rests on: only the CENTRES of the three sets of bins (ctr: the median,
+   or the weighted median when the table has weights) are within eps of their levels; single bins may be anywhere *)
+Record centred_noise (ctr : list bin -> Q) (eps a : Q) (female hap_ref : bool) (build : option parb) (t : list bin)
+  : Prop := {
+  cn_auto_exists : exists b, In b t /\ is_auto_name (b_chrom b) = true;
+  cn_x_exists : exists b, In b t /\ chr_x_filter t build b = true;
+  cn_auto : near eps a (ctr (autosomes t build));
+  cn_x : near eps (a + x_offset female hap_ref) (ctr (filter (chr_x_filter t build) t));
+  cn_y : filter (chr_y_filter t build) t <> [] -> y_near eps a female (ctr (filter (chr_y_filter t build) t));
+  cn_w : forall b w, In b t -> b_weight b = Some w -> 0 <= w
+}.
+Definition centred_noise_b (ctr : list bin -> Q) (eps a : Q) (female hap_ref : bool) (build : option parb)
+  (t : list bin) : bool :=
+  existsb (fun b => is_auto_name (b_chrom b)) t && existsb (chr_x_filter t build) t &&
+  near_b eps a (ctr (autosomes t build)) &&
+  near_b eps (qadd a (x_offset female hap_ref)) (ctr (filter (chr_x_filter t build) t)) &&
+  match filter (chr_y_filter t build) t with
+  | [] => true
+  | chry => y_near_b eps a female (ctr chry)
+  end &&
+  forallb weight_ok_b t.
